@@ -363,6 +363,40 @@ async fn he_next() {
     }
 }
 
+/// he.next / he.join.effects [C11] "a further attempt is started as soon as ... a running attempt has failed": EVERY
+/// failure counts, not only the first one, also while other attempts are still running.  6 candidates, initial
+/// concurrency 2 or 3, no stagger tick within the test (delay None / one hour); the running attempts fail one after
+/// the other - always the oldest, always the newest, or alternating - and after each failure exactly one further
+/// candidate (the next in order) has been started by the next poll.
+#[tokio::test]
+async fn he_every_failure_starts_next() {
+    for d in [None, Some(LONG)] {
+        for ic in [2usize, 3] {
+            for pick in 0..3usize {
+                let n = 6;
+                let Rig { mut set, log, mut tx } = rig(n, d, None, Some(ic));
+                let mut fut: Pin<Box<dyn Future<Output = _> + '_>> = Box::pin(set.finish());
+                assert!(step(&mut fut).await.is_pending());
+                assert_eq!(starts(&log), (0..ic).collect::<Vec<_>>(), "initial batch");
+                let mut running: Vec<usize> = (0..ic).collect();
+                let mut k = 0usize;
+                while starts(&log).len() < n {
+                    let idx = match pick { 0 => 0, 1 => running.len() - 1, _ => if k % 2 == 0 { 0 } else { running.len() - 1 } };
+                    let victim = running.remove(idx);
+                    let before = starts(&log).len();
+                    fire(&mut tx, victim, Err(format!("e{victim}")));
+                    assert!(step(&mut fut).await.is_pending(), "attempts are still running");
+                    let st = starts(&log);
+                    assert_eq!(st, (0..before + 1).collect::<Vec<_>>(), "failure #{} (attempt {victim}, {} other attempt(s) still running, initial concurrency {ic}, \
+                        delay {d:?}): the next candidate must have been started by the next poll, and only that one", k + 1, running.len());
+                    running.push(before);
+                    k += 1;
+                }
+            }
+        }
+    }
+}
+
 /// he.finish [C10,C11]: finish maps Ok(Ok(v)) -> Ok(v), Ok(Err(e)) -> Err(e), elapsed -> Err(Timeout) and nothing else
 #[tokio::test]
 async fn he_finish() {
